@@ -64,7 +64,9 @@ AllAxioms(sp, x, y, z, a, b) ==
   /\ AxInnerSym(x, y) /\ AxInnerBilinear(x, y, z, a, b) /\ AxInnerPosDef(sp, x) /\ AxCovInvolution(x) /\ AxBasis(sp, x)
 
 \* ---- the space family
-LeafShapes == {<<>>, <<2>>, <<0>>, <<1, 2>>}
+\* (<<2, 3>>: a genuinely two-dimensional leaf, so that the memory layout of a vector - C order, Fortran order, a transposed view - is
+\*  something the replay can vary; the algebra itself never mentions layout)
+LeafShapes == {<<>>, <<2>>, <<0>>, <<1, 2>>, <<2, 3>>}
 ArrDT == {"float64", "float32", "float16", "longdouble", "complex128", "complex64"}
 ScalarDT == {"pyfloat", "pycomplex", "npfloat64scalar"}
 Leaves == {[k |-> "arr", shape |-> s, dt |-> d] : s \in LeafShapes, d \in ArrDT} \cup {[k |-> "arr", shape |-> <<>>, dt |-> d] : d \in ScalarDT}
